@@ -29,3 +29,48 @@ Theorem c05_build_failure_links_correct : forall ps : list (list Z),
     length T' = length T0.
 Proof. exact build_inserts_correct. Qed.
 Print Assumptions c05_build_failure_links_correct.
+
+(* ---------------------------------------------------------------------------------------------------------------
+   End to end, for every pattern set and every text (byte strings: lists of integers 0..255):
+   [built ps T]: T is the table after Insert(p) for every p of ps (in order) and BuildFailureLinks;
+   [occurrence ps text s e]: some non-empty p of ps equals text[s:e] byte for byte, and s, e are rune boundaries of
+   the text (offsets at which decodeRune starts a rune, or the end).  For patterns that are valid UTF-8 every
+   byte-for-byte occurrence is of this kind (checked by the differential run in its plain-substring mode). *)
+From V Require Import Proofs.TrieRunes Proofs.TrieOcc Proofs.TrieTop.
+
+Theorem c05_occurrence_meaning : forall ps text s e, occurrence ps text s e <->
+  exists p, In p ps /\ p <> [] /\ (0 <= s)%Z /\ e = (s + Z.of_nat (length p))%Z /\
+            is_prefix p (skipn (Z.to_nat s) text) && (is_bound text (Z.to_nat s) && is_bound text (Z.to_nat s + length p)) = true.
+Proof. exact occurrence_meaning. Qed.
+Print Assumptions c05_occurrence_meaning.
+
+(* find: no panic, no fuel exhaustion; one scope per (pattern, position) occurrence — nested and overlapping ones
+   included — nothing else, none twice *)
+Theorem c05_find_complete_sound_once : forall ps text T, Forall is_bytes ps -> is_bytes text -> built ps T ->
+  exists sc, find T text = Ok sc /\ NoDup sc /\ (forall s e, In (s, e) sc <-> occurrence ps text s e).
+Proof. exact find_correct. Qed.
+Print Assumptions c05_find_complete_sound_once.
+
+(* FindAll: every slice expression is in range and every entry is the matched pattern itself *)
+Theorem c05_find_all_entries : forall ps text T, Forall is_bytes ps -> is_bytes text -> built ps T ->
+  exists sc l, find T text = Ok sc /\ NoDup sc /\ (forall s e, In (s, e) sc <-> occurrence ps text s e) /\
+    find_all T text = Ok l /\ Forall2 (fun se x => slice text (fst se) (snd se) = Some x /\ In x ps /\ x <> []) sc l.
+Proof. exact find_all_correct. Qed.
+Print Assumptions c05_find_all_entries.
+
+(* Match *)
+Theorem c05_match_iff_occurs : forall ps text T, Forall is_bytes ps -> is_bytes text -> built ps T ->
+  exists b, match_ T text = Ok b /\ (b = true <-> exists s e, occurrence ps text s e).
+Proof. exact match_iff_occurs. Qed.
+Print Assumptions c05_match_iff_occurs.
+
+(* the occurrences are those the executable specification of the run lists (rune-aligned reading, Model.Trie.occs) *)
+Theorem c05_occurrences_are_spec_occs : forall ps text s e, occurrence ps text s e <->
+  (0 <= s)%Z /\ (0 <= e)%Z /\ In (Z.to_nat s, Z.to_nat e) (occs true ps text).
+Proof. exact occurrence_occs. Qed.
+Print Assumptions c05_occurrences_are_spec_occs.
+
+(* a trie exists for every pattern set: the premise [built ps T] is satisfiable *)
+Theorem c05_built_exists : forall ps, exists T, built ps T.
+Proof. exact built_exists. Qed.
+Print Assumptions c05_built_exists.
